@@ -256,6 +256,11 @@ func runCheck(id, tier, repo, verif string, writeEvidence bool) int {
 			unclaimed[u.Obligation] = u
 		}
 	}
+	var witnessEntries []exceptionEntry
+	for _, f := range known {
+		witnessEntries = append(witnessEntries, f)
+	}
+	witness, witnessOut := P.runWitnesses(witnessEntries, tmp)
 	violations := 0
 	var knownHit []string
 	var unclaimedHit []string
@@ -313,6 +318,10 @@ func runCheck(id, tier, repo, verif string, writeEvidence bool) int {
 				discharged++
 				continue
 			}
+			if stillFails, ran := witness[r.Obl.Name]; f.Witness != "" && (!ran || !stillFails) {
+				report(r.Obl.Name, r.Obl.Kind, "this obligation is listed as a known finding, but its committed witness no longer fails on this tree while the obligation still does: a different violation of the same obligation\n\nwitness run:\n"+truncate(witnessOut, 3000), r)
+				continue
+			}
 			fmt.Printf("KNOWN-FINDING: property=%s %s — %s\n", id, r.Obl.Name, f.What)
 			knownHit = append(knownHit, r.Obl.Name)
 			continue
@@ -347,6 +356,10 @@ func runCheck(id, tier, repo, verif string, writeEvidence bool) int {
 			continue
 		}
 		if f, ok := known[ex.Name]; ok {
+			if stillFails, ran := witness[ex.Name]; f.Witness != "" && (!ran || !stillFails) {
+				report(ex.Name, ex.Kind, "listed as a known finding, but its committed witness no longer fails on this tree while the check still does\n\n"+ex.Detail+"\n\nwitness run:\n"+truncate(witnessOut, 3000), nil)
+				continue
+			}
 			fmt.Printf("KNOWN-FINDING: property=%s %s — %s\n", id, ex.Name, f.What)
 			knownHit = append(knownHit, ex.Name)
 			total--
